@@ -562,7 +562,7 @@ impl Engine for Front {
     }
     fn rule(&self, prop: &str) -> String {
         match prop {
-            "C08" => "inputs: every string of 1 and 2 atoms (3 in the thorough tier) over a 57-atom alphabet built to hit every lexer transition (identifier characters, digits, all punctuation and brackets, $ # / :, LF CR CRLF TAB, U+00A0 U+2003 U+2028 U+0085, 2/3/4-byte letters, reserved words, //, #[, ::, $x, $start ...), random soups of up to 64 atoms, valid files with 1-3 character edits, prefixes of valid files cut at every kind of boundary, attribute-centred bracket soups, token soups with and without separators. One evaluation = one string tokenised by kiki (tap on the tokenizer + generate at the public boundary) compared token by token (kind, start, text) or error by error (byte index, character) with the reference scanner R-lex. Distinct non-trivial = distinct strings with >=2 tokens or a lexical error at index > 0.".into(),
+            "C08" => format!("inputs: every string of 1 and 2 atoms (3 in the thorough tier) over a {}-atom alphabet built to hit every lexer transition (identifier characters, digits, all punctuation and brackets, $ # / :, LF CR CRLF TAB VT FF, every kind of Unicode White_Space (U+0085 U+00A0 U+1680 U+2000..U+200A U+2028 U+2029 U+202F U+205F U+3000), look-alikes that are not whitespace (U+200B U+180E U+FEFF U+001C), 2/3/4-byte letters, non-ASCII digits / numerics / letters / combining marks (² ½ ٣ １ Ⅷ ß Ω ａ İ U+0301 U+200D), reserved words, //, #[, ::, $x, $start ...), random soups of up to 64 atoms, valid files with 1-3 character edits, prefixes of valid files cut at every kind of boundary, attribute-centred bracket soups, token soups with and without separators. One evaluation = one string tokenised by kiki (tap on the tokenizer + generate at the public boundary) compared token by token (kind, start, text) or error by error (byte index, character) with the reference scanner R-lex. Distinct non-trivial = distinct strings with >=2 tokens or a lexical error at index > 0.", gtext::ATOMS.len()),
             "C09" => "inputs: lexically valid texts built from token sequences: prefix p of a valid file (repository examples, rendered grammar models, random sentences of the Kiki grammar itself) extended by each of the 17 token kinds (prefix-extension sweep), valid files with 0-3 token edits, token soups; joined with random whitespace/comments so spans are non-trivial. One evaluation = generate(text) compared with the verdict of the Kiki grammar as data under the reference canonical LR(1) recogniser (cross-checked by a hand-written predictive recogniser): accept, or Parse(start,text,end) of the first token that cannot continue any valid file, or the empty span at the end. Distinct non-trivial = distinct token-kind sequences rejected at index >=1 or accepted with >=10 tokens.".into(),
             "C10" => "inputs: syntactically valid files: (a) rendered grammar models with 0-3 injected edits (rename to an existing / hostile name, flip a reference between $terminal and nonterminal namespace, drop/duplicate start, drop/duplicate terminal enum, duplicate variant / nonterminal / terminal variant, start naming a terminal, capitalisation flips), re-laid-out at random; (b) random declarations over a 14-name pool so that every kind and combination of violation occurs. One evaluation = generate(text) compared with the set of all violations computed by R-validate from the reference AST: Ok/TableConflict only if the set is empty, otherwise the reported error (variant, name / symbol sequence, every byte position) must be an element of the set. Distinct non-trivial = distinct files (hash of the declaration structure) with >=1 violation present.".into(),
             _ => "inputs: the union of the C08, C09 and C10 workloads (character soups incl. every 1- and 2-atom string, token-level and character-level edits of valid files, prefixes, files with injected static violations, well-formed but unusual grammars) plus size/depth stress files inside the property's bounds run in separate child processes in both the optimised and the unoptimised (dev-profile) build. One evaluation = one call of generate under catch_unwind with the H2 step limit armed (limit derived from the reference automaton when the text is a well-formed grammar); panics, step-limit trips, deaths by signal and exhausted CPU budgets are the refuting events. Distinct non-trivial = distinct inputs that got past the tokenizer.".into(),
